@@ -8,7 +8,7 @@ from ..env import ptn
 
 def snapshot(obj, is_mpo):
     dense = refs.dense_operator(obj.A) if is_mpo else refs.dense_state(obj.A)
-    single = any(np.asarray(a).dtype in (np.float32, np.complex64) for a in obj.A)
+    single = any(np.asarray(a).dtype.kind in 'fc' and float(np.finfo(np.asarray(a).dtype).eps) > 1e-10 for a in obj.A)
     scale = float(np.prod([max(np.linalg.norm(np.asarray(a, dtype=complex)), 1e-300) for a in obj.A])) if len(obj.A) else 1.0
     return {'scale': scale, 'dense': dense, 'D': [len(q) for q in obj.qD], 'qD0': np.array(obj.qD[0], copy=True), 'qDL': np.array(obj.qD[-1], copy=True),
             'qd': np.array(obj.qd, copy=True), 'single': single, 'A': [np.array(a, copy=True) for a in obj.A], 'qD': [np.array(q, copy=True) for q in obj.qD]}
@@ -115,7 +115,7 @@ ZERO_PARAM_MODELS = [('ising', (1.0, 0.0, 0.0)), ('ising', (0.7, 0.0, 0.4)), ('i
 
 PROFILES = ['one', 'random', 'max', 'over', 'disjoint', 'deficient']
 LAYOUTS = ['zero', 'sorted', 'unsorted', 'repeated', 'pairs', 'huge']
-KINDS = ['complex', 'real', 'int', 'float32', 'mixed']
+KINDS = ['complex', 'real', 'int', 'float32', 'mixed', 'complex64', 'complex-be', 'real-be']
 
 
 def _qd(rng, d, layout):
